@@ -15,7 +15,7 @@ LEVEL = "model_checking"
 RULE = (
     "BFS over all histories of {update_dm(d) : d in dm0,dm0+15,dm0+30,dm0-10} U {update_period(p) : p in p0,p0(1+1e-3),p0(1+2.5e-3),"
     "p0(1-1e-3),1.37p0} up to depth 4 (quick) / 5 (thorough) on cubes (3,4,16) and (5,2,12) with all-distinct contents (plus a 1-sub-band "
-    "cube); state key = all mutable fields of the object (data bytes, dm, period, internal shift arrays); in every state: cube == fresh "
+    "and a 1-sub-integration cube); state key = all mutable fields of the object (data bytes, dm, period, internal shift arrays); in every state: cube == fresh "
     "cube re-tuned directly to the reported (dm, period) in both call orders, every profile is a rotation of the folded profile, dm/period "
     "report the last targets, and (dm0,p0) gives the original bits. Non-trivial = histories of length >= 2"
 )
@@ -27,7 +27,7 @@ REQUIRED_OUTCOMES = ["state/ok", "state/back_to_folding_values", "state/repeat_n
 
 
 def bounds(tier: str) -> dict:
-    return {"depth": 4 if tier == "quick" else 5, "cubes": [[3, 4, 16], [5, 2, 12], [4, 1, 10]], "alphabet": 9}
+    return {"depth": 4 if tier == "quick" else 5, "cubes": [[3, 4, 16], [5, 2, 12], [4, 1, 10], [1, 3, 8]], "alphabet": 9}
 
 
 def shards(tier: str, seed: int) -> list:
